@@ -23,7 +23,9 @@ tie, checked on every run (T-acc + T-diff on the REAL .vcd file):
   that collide with reserved/structural names (clk, reset, in_, out, top, sibling/parent component and port names, a_0 vs
   a[0], a__b vs a.b) and all such pins toggle, Bits of 1..200 bits,
   bitstruct ports incl. nested/list/wide (61..67-bit) fields, pure-connection nets spanning several components, constants, slices and
-  struct-field connections, never-written wires, counters/toggles; inputs move between values that collide under
+  struct-field connections, never-written wires, counters/toggles; signals driven directly by every kind of
+  expression result (comparisons Bits/Bits and Bits/int, reductions, boolean context, and/or/not, Bits1() casts, selects,
+  slices, arithmetic, concat, if-expressions) in @update and @update_ff blocks and through nets; inputs move between values that collide under
   cheap comparisons: equal hash()/mod 2^61-1/2^31-1, equal low 32/64 bits, complements, reversals, rotations,
   zeros<->ones) are simulated with DefaultPassGroup(vcdwave=...,
   textwave=True).  A sampling function is inserted into the two tick
@@ -39,7 +41,8 @@ tie, checked on every run (T-acc + T-diff on the REAL .vcd file):
   kept, [ ] -> ( )): no duplicates, nothing missing or extra, equal widths; every signal is located by that key; PrintTextWavePass's
   textwave_dict equals the same samples.
 partial / modelled: decimal `#t` and the header are tokenised in Python (trusted glue); blank lines are ignored;
-  x/z values are refused by the reader (pymtl3 never writes them); the text-wave comparison is done in Python.
+  the reader is strict: a body line that is not `#t`, `0|1<code>` or `b[01]+ <code>` makes the whole file malformed
+  (verdict bit 1 = violation); x/z values are well-formed VCD but have no two-state value, so they can never equal a sample; the text-wave comparison is done in Python.
 """
 import importlib.util, hashlib
 from common import *
@@ -125,6 +128,87 @@ class IfcStage( Component ):
         s.bank[i].req.msg  <<= s.bank[i-1].req.msg
         s.bank[i].resp.val <<= ~s.bank[i-1].resp.val
       s.bank[0].resp.val <<= s.dmem.resp.val
+
+# every kind of expression result the DSL offers drives a signal directly: six comparisons (Bits vs Bits, Bits vs int),
+# reductions, boolean-context, & | ~ and python and/or/not of comparison results, Bits1() casts, bit selects, slices,
+# arithmetic, shift, concat, if-expressions -- in an @update and in an @update_ff block, and through nets (n_gt, n_feq)
+class ExprStage( Component ):
+  def construct( s, T, k, h ):
+    s.in_ = InPort( T )
+    s.out = OutPort( T )
+    s.r   = Wire( T )
+    for nm in ['c_eq','c_ne','c_lt','c_le','c_gt','c_ge','k_eq','k_ne','k_lt','k_le','k_gt','k_ge',
+               'ra','ro','rx','bc','band','bor','binv','pyand','pyor','pynot','cast','castc','sel','n_gt',
+               'f_eq','f_ne','f_lt','f_le','f_gt','f_ge','f_kgt','f_ro','f_sel','f_band','n_feq']:
+      setattr( s, nm, OutPort( Bits1 ) )
+    s.sl    = OutPort( mk_bits(h) )
+    s.add   = OutPort( T )
+    s.sub   = OutPort( T )
+    s.mul   = OutPort( T )
+    s.shr   = OutPort( T )
+    s.xor   = OutPort( T )
+    s.cat   = OutPort( mk_bits(2*T.nbits) )
+    s.ife   = OutPort( T )
+    s.f_add = OutPort( T )
+    s.f_cat = OutPort( mk_bits(T.nbits+1) )
+    s.f_ife = OutPort( T )
+    s.f_sl  = OutPort( mk_bits(h) )
+    s.n_gt  //= s.c_gt
+    s.n_feq //= s.f_eq
+    s.out   //= s.ife
+    @update
+    def up_expr():
+      s.c_eq @= s.in_ == s.r
+      s.c_ne @= s.in_ != s.r
+      s.c_lt @= s.in_ <  s.r
+      s.c_le @= s.in_ <= s.r
+      s.c_gt @= s.in_ >  s.r
+      s.c_ge @= s.in_ >= s.r
+      s.k_eq @= s.in_ == k
+      s.k_ne @= s.in_ != k
+      s.k_lt @= s.in_ <  k
+      s.k_le @= s.in_ <= k
+      s.k_gt @= s.in_ >  k
+      s.k_ge @= s.in_ >= k
+      s.ra @= reduce_and( s.in_ )
+      s.ro @= reduce_or( s.in_ )
+      s.rx @= reduce_xor( s.in_ )
+      if s.in_ >= s.r: s.bc @= 1
+      else:            s.bc @= 0
+      s.band @= ( s.in_ > s.r ) & ( s.in_ != k )
+      s.bor  @= ( s.in_ < s.r ) | ( s.r == k )
+      s.binv @= ~( s.in_ == s.r )
+      s.pyand @= ( s.in_ > s.r ) and ( s.r >= k )
+      s.pyor  @= ( s.in_ < s.r ) or ( s.r < k )
+      s.pynot @= not ( s.in_ == s.r )
+      s.cast  @= Bits1( s.in_[0] )
+      s.castc @= Bits1( s.in_ <= s.r )
+      s.sel @= s.in_[0]
+      s.sl  @= s.in_[0:h]
+      s.add @= s.in_ + s.r
+      s.sub @= s.in_ - s.r
+      s.mul @= s.in_ * s.r
+      s.shr @= s.in_ >> 1
+      s.xor @= s.in_ ^ s.r
+      s.cat @= concat( s.in_, s.r )
+      s.ife @= s.in_ if s.in_ > s.r else s.r
+    @update_ff
+    def up_expr_ff():
+      s.r <<= s.in_
+      s.f_eq <<= s.in_ == s.r
+      s.f_ne <<= s.in_ != s.r
+      s.f_lt <<= s.in_ <  s.r
+      s.f_le <<= s.in_ <= k
+      s.f_gt <<= s.in_ >  s.r
+      s.f_ge <<= s.in_ >= s.r
+      s.f_kgt <<= s.in_ > k
+      s.f_ro  <<= reduce_or( s.in_ ^ s.r )
+      s.f_sel <<= s.in_[h-1]
+      s.f_band <<= ( s.in_ >= s.r ) & ( s.r != k )
+      s.f_add <<= s.in_ + k
+      s.f_cat <<= concat( s.in_ < s.r, s.in_ )
+      s.f_ife <<= s.r if s.in_ == k else s.in_
+      s.f_sl  <<= s.r[0:h]
 
 class Reg( Component ):
   def construct( s, T ):
@@ -311,6 +395,7 @@ def stage_ctor(st, tv):
   if k in ('Reg', 'PassThru', 'Nested', 'Inv', 'PtSwap', 'PtFields'): return f'{k}( {tv} )'
   if k == 'Fan': return f'Fan( {tv}, {st[1]} )'
   if k == 'IfcStage': return f'IfcStage( {tv}, {st[1]} )'
+  if k == 'Expr': return f'ExprStage( {tv}, {st[1]}, {st[2]} )'
   if k == 'AddK': return f'AddK( {tv}, {st[1]} )'
   if k == 'SliceMix': return f'SliceMix( {tv}, {st[1]}, {st[2]} )'
   raise ValueError(k)
@@ -346,6 +431,11 @@ def render(spec, name):
       for i, st in enumerate(ch['stages']):
         L.append(f'    s.c{j}_{i} = {ctors[i]}')
         refs.append(f's.c{j}_{i}')
+    for i, (st, r) in enumerate(zip(ch['stages'], refs)):
+      if st[0] == 'Expr':
+        for pin in ('c_gt', 'f_eq', 'k_le', 'cat'):
+          L.append(f'    s.x{j}_{i}_{pin} = OutPort( {"mk_bits(" + str(2 * twidth(ch["T"])) + ")" if pin == "cat" else "Bits1"} )')
+          L.append(f'    s.x{j}_{i}_{pin} //= {r}.{pin}')
     for st, r in zip(ch['stages'], refs):
       L.append(f'    {r}.in_ //= {src}')
       src = f'{r}.{stage_out(st)}'
@@ -409,13 +499,14 @@ def rand_stage(rng, T):
   w = twidth(T)
   opts = ['Reg', 'Reg', 'PassThru', 'PassThru', 'Nested', 'Fan', 'IfcStage', 'NIfc', 'NIfc']
   if T[0] == 'b':
-    opts += ['Inv', 'AddK', 'AddK']
+    opts += ['Inv', 'AddK', 'AddK', 'Expr', 'Expr', 'Expr']
     if w >= 2: opts += ['SliceMix']
   if T == ('s', 'Pt'): opts += ['PtSwap', 'PtFields', 'PtSwap']
   k = rng.choice(opts)
   if k == 'Fan': return ('Fan', rng.randint(1, 3))
   if k == 'IfcStage': return ('IfcStage', rng.randint(1, 3))
   if k == 'NIfc': return ('NIfc', rand_ifc_names(rng))
+  if k == 'Expr': return ('Expr', rng.choice([0, (1 << w) - 1, rng.randrange(1 << w), rng.randrange(1 << w)]), rng.randint(1, w))
   if k == 'AddK': return ('AddK', rng.randrange(0, 1 << min(w, 16)))
   if k == 'SliceMix':
     h = rng.randint(1, w - 1)
@@ -506,6 +597,10 @@ DIRECTED = [
                                            ('NIfc', {'leaf': ['in_', 'out', 'c0'], 'bundle': ['c0_0', 'in0', 'out0'], 'comp': ['c0_0', 'c0', 'top']})],
                'share': None, 'aslist': False}],
    'extras': [('topifc', ('s', 'Nest'), 2, {'leaf': ['a', 'reset'], 'pair': ['a', 'a_0']})]},
+  # signals driven directly by expression results, at 1, 8 and 64 bits, chained and in a list of components
+  {'chains': [{'T': ('b', 1), 'stages': [('Expr', 1, 1), ('Expr', 0, 1)], 'share': None, 'aslist': True},
+              {'T': ('b', 8), 'stages': [('Expr', 5, 3), ('Reg',), ('Expr', 255, 8)], 'share': None, 'aslist': False},
+              {'T': ('b', 64), 'stages': [('Expr', 7, 61)], 'share': None, 'aslist': False}], 'extras': []},
   # one input fanned into three chains: one big net across many components
   {'chains': [{'T': ('b', 8), 'stages': [('PassThru',), ('PassThru',)], 'share': None, 'aslist': False},
               {'T': ('b', 8), 'stages': [('Fan', 3), ('PassThru',)], 'share': 0, 'aslist': False},
@@ -643,27 +738,30 @@ def tokenize_vcd(text):
   out = []
   for ln in body.split('\n'):
     if ln.strip() == '': continue
-    if ln.startswith('#'):
-      out.append(('t', int(ln[1:])))
+    if re.fullmatch(r'#\d+', ln.strip()):
+      out.append(('t', int(ln.strip()[1:])))
     else:
       out.append(('v', ln))
   return vars_, out
 
+VALUE_LINE = re.compile(r'^(?:([01xzXZ])|[bB]([01xzXZ]+) )(\S+)$')
+
 def py_decode(tokens, clk, codes):
-  """reference reader in Python (only used to describe a mismatch and to steer shrinking; the verdict is Coq's)"""
-  st, now, closed = {}, -1, []
+  """reference reader in Python (describes a mismatch and steers shrinking; the verdict is Coq's).  Strict: a body line
+  that is neither `#<t>`, `0|1|x|z<code>` nor `b[01xz]+ <code>` is malformed VCD and is reported, never skipped."""
+  st, now, closed, malformed = {}, -1, [], []
   for k, v in tokens:
     if k == 't':
       closed.append((now, dict(st))); now = v
     else:
-      if v[0] in '01': st[v[1:]] = (1, int(v[0]))
-      elif v[0] == 'b':
-        digits, _, code = v[1:].partition(' ')
-        st[code] = (len(digits), int(digits, 2)) if digits and set(digits) <= {'0', '1'} else None
-      else: st[v] = None
+      m = VALUE_LINE.match(v)
+      if not m:
+        malformed.append(v); continue
+      digits = m.group(1) or m.group(2)
+      st[m.group(3)] = (len(digits), int(digits, 2)) if set(digits) <= {'0', '1'} else None     # x/z: no two-state value
   rows = [[s.get(c) for c in codes] for (t, s) in closed if t >= 0 and s.get(clk) == (1, 1)]
   wave = [(t, (s.get(clk) or (0, None))[1]) for (t, s) in closed] + [(now, (st.get(clk) or (0, None))[1])]
-  return rows, wave
+  return rows, wave, malformed
 
 def cstr(s):
   return '"' + s.replace('"', '""') + '"%string'
@@ -704,8 +802,8 @@ def analyse(res):
   samples = res['samples']
   out.update(names=names, codes=codes, widths=widths, clk=clk, nonclk=nonclk, tokens=tokens)
   # ---- python reference check (description of mismatches only)
-  rows, wave = py_decode(tokens, clk, [codes[i] for i in nonclk])
-  mism = []
+  rows, wave, malformed = py_decode(tokens, clk, [codes[i] for i in nonclk])
+  mism = [{'what': 'malformed VCD: not a value-change line', 'line': ln} for ln in malformed[:4]]
   if len(rows) != len(samples):
     mism.append({'what': 'number of cycles', 'vcd': len(rows), 'simulated': len(samples)})
   for t, (r, srow) in enumerate(zip(rows, samples)):
@@ -738,7 +836,8 @@ def analyse(res):
   first_t = next(k for k, (a, _) in enumerate(tokens) if a == 't')
   init_codes = []
   for a, v in tokens[:first_t]:
-    init_codes.append(v[1:] if v[0] in '01' else v[1:].partition(' ')[2])
+    m = VALUE_LINE.match(v)
+    init_codes.append(m.group(3) if m else v)
   by_code = {}
   for i, c in enumerate(codes): by_code.setdefault(c, []).append(i)
   tie_ok = sorted(init_codes) == sorted(by_code) and len(set(init_codes)) == len(init_codes)
@@ -900,7 +999,7 @@ def check_batch(ctx, batch):
                       shrunk_from_cycles=len(b['seq']))
       first = (replay['mismatches'] or [{}])[0]
       ctx.violation(f'C16:vcd-replay:{h}',
-                    f'the .vcd read back by the Coq reader differs from the simulator (verdict bits {code}: 1=unparsable line, '
+                    f'the .vcd read back by the Coq reader differs from the simulator (verdict bits {code}: 1=malformed value-change line, '
                     f'2=value, 4=clock): {first}', replay)
     elif sum(1 for v in ctx.violations if v[0].startswith('C16:model-tie:')) < MAX_REPORTS:
       # reader agrees with the samples, only the writer model differs from the file: the model tie is broken
@@ -915,7 +1014,7 @@ def run(ctx):
   import pymtl3
   rng = ctx.rng
   quick = ctx.tier == 'quick'
-  ndesigns = 120 if quick else 700
+  ndesigns = 120 if quick else 500
   batch_size = 64 if quick else 100
   batch, total_cells, tn, trv, lookalike, struct_moving = [], 0, 0, 0, {}, [0, 0]
   def flush():
